@@ -73,7 +73,15 @@ impl<C: Cursor> Cursor for ConcatenatingCursor<C> {
             }
         }
         self.reposition(left)?;
-        self.cursors[self.position].seek(key)
+        self.cursors[self.position].seek(key)?;
+        // NOTE:  The search above stops without looking at `left` itself.  When every key of
+        // that child sorts before `key` the answer is the first key of a later child.
+        while self.cursors[self.position].key().is_none() && self.position + 1 < self.cursors.len()
+        {
+            self.reposition(self.position + 1)?;
+            self.cursors[self.position].seek(key)?;
+        }
+        Ok(())
     }
 
     fn prev(&mut self) -> Result<(), SError> {
